@@ -129,6 +129,9 @@ fn main() {
     let cmd = args.get(1).map(|s| s.as_str()).unwrap_or("");
     let seed = arg_u64(&args, "--seed", 1);
     let mut rep = Report::new();
+    if let Some(rp) = arg(&args, "--report") {
+        transport::start_watchdog(format!("{rp}.hang"));
+    }
     let outcome = std::panic::catch_unwind(std::panic::AssertUnwindSafe(|| run(cmd, &args, seed, &mut rep)));
     if outcome.is_err() {
         eprintln!("HARNESS-PANIC: {}", take_panic());
